@@ -36,7 +36,7 @@ PROPS = {
     "C06": dict(
         title="interleaving search (answers as multiset / membership)",
         props_module="PvModel.Props.C06",
-        props_extra=["PvModel.Props.C07Rel", "PvModel.Props.C06Rel"],
+        props_extra=["PvModel.Props.C07Rel", "PvModel.Props.C06Rel", "PvModel.Props.C06Query"],
         rule="search programs (conj/conde/disj/fresh over == leaves, member/append calls on bounded lists); 1 in 4 with an infinite producer "
              "(anyo, open-ended member/append, always) observed on a bounded prefix; finite ones compared as multisets with the reference "
              "interpreter and with dfs{} of the same program on the real engine, infinite ones by membership of every delivered answer; "
